@@ -177,8 +177,8 @@ def run_output_vcf(case):
     out = str(d / ("out" + case["fmt_out"]))
     # record the per-block choices (reference sample, strand) = the random tape of this run
     rec = []
-    orig_conv, orig_np = sg._convert_haplotype, sg.np
-    rp = SD._RandProxy(np.random)
+    orig_conv = sg._convert_haplotype
+    rp = SD.record_random()
 
     def conv(*a, **k):
         with C.glue("recording _convert_haplotype (entry)"):
@@ -209,18 +209,20 @@ def run_output_vcf(case):
 
     sg._find_random_sample = frs
 
-    sg._convert_haplotype, sg.np = conv, SD._NPProxy(rp)
+    sg._convert_haplotype = conv
     np.random.seed(case["seed"])
     try:
-        sg.output_vcf(bps, case["chroms"], str(d / "model.dat"), ref_file, str(d / "info.tab"), case["region"], case["pop_field"], case["sample_field"], case["no_repl"], out, SD.silent_log())
+        with rp:
+            sg.output_vcf(bps, case["chroms"], str(d / "model.dat"), ref_file, str(d / "info.tab"), case["region"], case["pop_field"], case["sample_field"], case["no_repl"], out, SD.silent_log())
     finally:
-        sg._convert_haplotype, sg.np = orig_conv, orig_np
+        sg._convert_haplotype = orig_conv
         sg._find_random_sample = orig_frs
     # strands: no_replacement -> from _find_random_sample (r[4]); otherwise the randint(2,size) drawn right after
-    for r in rec:
-        if not case["no_repl"]:
-            nxt = [e for e in rp.log[r["nlog"] :] if e[0] == "randint"]
-            r["strands"] = [int(x) for x in np.atleast_1d(nxt[0][3])]
+    with C.glue("reading the strand draws that follow a _convert_haplotype call"):
+        for r in rec:
+            if not case["no_repl"]:
+                nxt = [e for e in rp.log[r["nlog"] :] if e[0] == "randint"]
+                r["strands"] = [int(x) for x in np.atleast_1d(nxt[0][3])]
     obs = read_output(out, case)
     obs["tape"] = [{k: v for k, v in r.items() if k != "nlog"} for r in rec]
     # what _convert_haplotype returned per (haplotype, chromosome): block ends and per block [reference sample, label]
